@@ -184,6 +184,7 @@ func refString(r reflua.Result) string {
 //
 //	spurious-handler  golua ran a message handler where the reference ran none
 //	missing-handler   the reference ran a message handler, golua did not
+//	wrong-handler     golua ran the message handler of another xpcall
 //	position          the values agree except for the chunk:LINE: prefix of a message
 //	trace             any other difference in the events before the epilogue
 //	epilogue          a difference in the runtime-still-consistent battery
@@ -220,7 +221,15 @@ func clauseOf(cmp string, ref reflua.Result, got host.Obs) string {
 	}
 	isH := func(e string) bool { return strings.HasPrefix(e, `s:"h`) }
 	isEp := func(e string) bool { return strings.HasPrefix(e, `s:"ep-`) }
+	tag := func(e string) string {
+		if k := strings.Index(e, `",`); k >= 0 {
+			return e[:k]
+		}
+		return e
+	}
 	switch {
+	case isH(g) && isH(r) && tag(g) != tag(r):
+		return "wrong-handler"
 	case isH(g) && !isH(r):
 		return "spurious-handler"
 	case isH(r) && !isH(g):
@@ -348,6 +357,14 @@ func runCase(tier, fam string, i uint64, g gcase) core.Outcome {
 				sb.WriteByte('\n')
 			}
 			out.Sig = core.Hash64(sb.String())
+		}
+		if os.Getenv("VERIF_C11_TRACE") != "" { // development aid
+			for k := range refs {
+				fmt.Fprintf(os.Stderr, "[%s] chunk %d\n  reference: %s\n", st, k+1, refString(refs[k]))
+				if k < len(gots) {
+					fmt.Fprintf(os.Stderr, "  golua:     %s\n", gots[k])
+				}
+			}
 		}
 		lf := lineFn(spans, st, ps.headers)
 		m := reflua.Matcher{Chunk: chunkName, Lines: lf, RTLines: lf}
